@@ -17,6 +17,7 @@ for f in sorted(glob.glob(os.path.join(COQ, "proofs", "*.v"))):
     if pre in shared or pre in ready:
         lines.append(os.path.relpath(f, COQ))
 for p in ready:
-    lines.append(f"props/{p}.v")
+    if os.path.exists(os.path.join(COQ, "props", p + ".v")):
+        lines.append(f"props/{p}.v")
 open(os.path.join(COQ, "_CoqProject"), "w").write("\n".join(lines) + "\n")
 print("ready:", ready)
